@@ -2024,3 +2024,115 @@ Section ReprojectDa.
     exists T. repeat (split; [reflexivity|]). split; [exact E | exact A].
   Qed.
 End ReprojectDa.
+
+(* ================================================================== reprojection output assembly: Dataset *)
+Lemma lookup_amerge {V} (a b : list (string * V)) k :
+  lookup k (amerge a b) = match lookup k a with Some v => Some v | None => lookup k b end.
+Proof.
+  unfold amerge. revert a. induction b as [|(kb, vb) b IH]; intros a; simpl.
+  - destruct (lookup k a); reflexivity.
+  - rewrite IH. destruct (lookup kb a) as [v0|] eqn:E.
+    + destruct (lookup k a) eqn:E2; auto.
+      destruct (String.eqb k kb) eqn:E3; auto. apply String.eqb_eq in E3; subst. congruence.
+    + rewrite lookup_app. destruct (lookup k a); auto. simpl. destruct (String.eqb k kb); reflexivity.
+Qed.
+
+Lemma fold_amerge_lookup {O V} (g : O -> list (string * V)) (outs : list O) (acc : list (string * V)) k v :
+  (forall o, In o outs -> lookup k (g o) = None \/ lookup k (g o) = Some v) ->
+  (lookup k acc = Some v \/ (lookup k acc = None /\ exists o, In o outs /\ lookup k (g o) = Some v)) ->
+  lookup k (fold_left (fun a o => amerge a (g o)) outs acc) = Some v.
+Proof.
+  revert acc. induction outs as [|o outs IH]; intros acc Hall H; simpl.
+  - destruct H as [H|(_ & o & [] & _)]; exact H.
+  - apply IH; [intros; apply Hall; now right|].
+    rewrite lookup_amerge.
+    destruct H as [H|(H & o' & [<-|Hin] & Ho')].
+    + left. rewrite H. reflexivity.
+    + left. rewrite H. exact Ho'.
+    + rewrite H. destruct (Hall o (or_introl eq_refl)) as [E|E]; rewrite E; [right; split; eauto | left; reflexivity].
+Qed.
+
+Lemma lookup_filter_val {V} (p : V -> bool) (l : list (string * V)) k v :
+  lookup k l = Some v -> p v = true -> lookup k (filter (fun nc => p (snd nc)) l) = Some v.
+Proof.
+  induction l as [|(k', v') l IH]; simpl; [discriminate|].
+  destruct (String.eqb k k') eqn:E.
+  - intros H Hp; injection H as ->. rewrite Hp. simpl. rewrite E. reflexivity.
+  - intros H Hp. destruct (p v'); simpl; [rewrite E|]; apply IH; auto.
+Qed.
+
+Lemma lookup_map_pair {V} (f : string -> V) l d : In d l -> lookup d (map (fun d0 => (d0, f d0)) l) = Some (f d).
+Proof.
+  induction l as [|h l IH]; simpl; [tauto|].
+  destruct (String.eqb d h) eqn:E; [apply String.eqb_eq in E; subst; reflexivity|].
+  intros [->|H]; [rewrite String.eqb_refl in E; discriminate | apply IH; exact H].
+Qed.
+
+Lemma mapM_res_In {A B} (f : A -> res B) l bs b :
+  mapM_res f l = Ok bs -> In b bs -> exists a, In a l /\ f a = Ok b.
+Proof.
+  revert bs. induction l as [|a l IH]; intros bs; simpl.
+  - intros E; injection E as <-. intros [].
+  - destruct (f a) as [b0|] eqn:Ef; simpl; [|discriminate].
+    destruct (mapM_res f l) as [bs0|] eqn:Em; simpl; [|discriminate].
+    intros E; injection E as <-. intros [<-|Hin].
+    + exists a; split; auto.
+    + destruct (IH bs0 eq_refl Hin) as (a' & Ha & Hf). exists a'; split; auto.
+Qed.
+
+Lemma mapM_res_In_fwd {A B} (f : A -> res B) l bs a :
+  mapM_res f l = Ok bs -> In a l -> exists b, In b bs /\ f a = Ok b.
+Proof.
+  revert bs. induction l as [|a0 l IH]; intros bs; simpl; [intros _ []|].
+  destruct (f a0) as [b0|] eqn:Ef; simpl; [|discriminate].
+  destruct (mapM_res f l) as [bs0|] eqn:Em; simpl; [|discriminate].
+  intros E; injection E as <-. intros [<-|Hin].
+  - exists b0; split; [now left | exact Ef].
+  - destruct (IH bs0 eq_refl Hin) as (b & Hb & Hf). exists b; split; [now right | exact Hf].
+Qed.
+
+(** the DataArray view [ds[name]] of a variable that carries fresh GeoBox coordinates *)
+Section DsView.
+  Variables (out : xobj) (name : string) (v : xvar) (pre post : list (string * Z)) (syd sxd : string)
+            (c : option crs) (ny nx : Z) (fyl fxl : Z -> Q) (ay ax : attrs) (Py P : option aff) (cc : coord).
+  Let dy := fst (crs_dims c).
+  Let dx := snd (crs_dims c).
+  Hypothesis Hv : lookup name (x_vars out) = Some v.
+  Hypothesis Hgm : v_gm v = Some DEFAULT_CRS_COORD_NAME.
+  Hypothesis Hat : lookup "crs" (v_attrs v) = None /\ lookup "crs_wkt" (v_attrs v) = None.
+  Hypothesis Hvd : v_dims v = map fst (pre ++ [(dy, ny); (dx, nx)] ++ post).
+  Hypothesis Hok : other_dims_ok (pre ++ post) syd sxd.
+  Hypothesis Hdy : lookup dy (x_dims out) = Some ny.
+  Hypothesis Hdx : lookup dx (x_dims out) = Some nx.
+  Hypothesis Hcy : lookup dy (x_coords out) = Some (Coord [dy] (map fyl (iota ny)) ay Py).
+  Hypothesis Hcx : lookup dx (x_coords out) = Some (Coord [dx] (map fxl (iota nx)) ax P).
+  Hypothesis Hcc : lookup DEFAULT_CRS_COORD_NAME (x_coords out) = Some cc.
+  Hypothesis Hccd : co_dims cc = [].
+  Hypothesis Hny : 0 <= ny.
+  Hypothesis Hnx : 0 <= nx.
+
+  Lemma ds_view_georef :
+    exists view, ds_getitem out name = Some view /\ x_attrs view = v_attrs v /\
+                 georef_w dy dx fyl fxl ay ax Py P (Some (DEFAULT_CRS_COORD_NAME, cc)) (iota ny) (iota nx) view.
+  Proof.
+    unfold ds_getitem. rewrite Hv. eexists; split; [reflexivity|]. split; [reflexivity|].
+    destruct (out_dims_facts pre post syd sxd c ny nx Hok) as (D1 & D2 & D3). fold dy dx in D1, D2, D3.
+    assert (Iy : In dy (v_dims v)). { rewrite Hvd, !map_app. apply in_or_app; right. simpl; auto. }
+    assert (Ix : In dx (v_dims v)). { rewrite Hvd, !map_app. apply in_or_app; right. simpl; auto. }
+    constructor; cbn [x_is_ds x_dims x_gm x_attrs x_coords].
+    - reflexivity.
+    - rewrite map_map. cbn [fst]. rewrite map_id. rewrite Hvd. exact D1.
+    - rewrite (lookup_map_pair (fun d => match lookup d (x_dims out) with Some n => n | None => 0 end) _ dy Iy).
+      rewrite Hdy, zlen_iota. f_equal; lia.
+    - rewrite (lookup_map_pair (fun d => match lookup d (x_dims out) with Some n => n | None => 0 end) _ dx Ix).
+      rewrite Hdx, zlen_iota. f_equal; lia.
+    - apply (lookup_filter_val (fun c0 => subsetb (co_dims c0) (v_dims v))); [exact Hcy|].
+      simpl. apply smem_In in Iy. rewrite Iy. reflexivity.
+    - apply (lookup_filter_val (fun c0 => subsetb (co_dims c0) (v_dims v))); [exact Hcx|].
+      simpl. apply smem_In in Ix. rewrite Ix. reflexivity.
+    - exact Hat.
+    - exists DEFAULT_CRS_COORD_NAME. unfold locate_crs_coords, grid_mapping_of. rewrite Hgm.
+      rewrite (lookup_filter_val (fun c0 => subsetb (co_dims c0) (v_dims v)) _ _ cc Hcc); [reflexivity|].
+      rewrite Hccd. reflexivity.
+  Qed.
+End DsView.
